@@ -13,7 +13,9 @@ Inductive item :=
 | IFixed (n : nat) (elem : list prim)   (* exactly n elements *)
 | IRest (elem : list prim)              (* elements until the data ends *)
 | IOpt (elem : list prim)               (* one optional trailing field: present iff data remains *)
-| IReq0 (elem : list prim).             (* present iff the schema's first field is 0 *)
+| IReq0 (elem : list prim)              (* present iff the schema's first field is 0 *)
+| IPad (when_len at_ n : nat).          (* deserialisation quirk: when exactly when_len bytes remain, n zero
+                                           bytes are inserted at offset at_; carries no value *)
 
 Definition schema := list item.
 
